@@ -112,6 +112,9 @@ func srtGenModelN(r *fw.Rand, n int) []srtCue {
 		c := srtCue{Start: s, End: e, Index: k + 1}
 		if r.P(1, 6) {
 			c.Index = r.Range(1, 99999)
+			if r.P(1, 3) {
+				c.Index = fw.Pick(r, []int{2147483647, 2147483648, 4294967296, 1700000000000}) + k
+			}
 		}
 		if k > 0 && r.P(1, 10) {
 			// the same text (and markup) as the cue before
@@ -120,7 +123,7 @@ func srtGenModelN(r *fw.Rand, n int) []srtCue {
 			continue
 		}
 		for l := 0; l < r.Range(1, 4); l++ {
-			txt := genText(r, textOpts{amp: true, lt: true, gt: true, nbsp: true, braces: true, comma: true, ampEntity: true, maxWords: 5})
+			txt := genText(r, textOpts{amp: true, lt: true, gt: true, nbsp: true, braces: true, comma: true, ampEntity: true, bsN: true, maxWords: 5})
 			pieces := splitRuns(r, txt, r.Range(1, 4))
 			var runs []srtRun
 			for _, p := range pieces {
@@ -604,6 +607,10 @@ func c01Reader(c *fw.Ctx) fw.Outcome {
 	if c.Idx%8 == 7 {
 		// a document larger than the scanner's buffer: line ends fall on buffer boundaries
 		model = srtGenModelN(c.R, c.R.Range(40, 90))
+	}
+	if c.Idx%256 == 15 {
+		// a script of an hour or two: more than 64 KiB, whatever the line-end convention
+		model = srtGenModelN(c.R, c.R.Range(900, 1500))
 	}
 	// several renderings of the same model
 	for k := 0; k < 4; k++ {
